@@ -2,6 +2,7 @@ package controller
 
 import (
 	"bytes"
+	"sync/atomic"
 
 	"github.com/canopy-network/canopy/bft"
 	"github.com/canopy-network/canopy/fsm"
@@ -165,4 +166,82 @@ func ZZ_C02_HandlePeerBlock_gate() {
 	zzAssert("C02.two-thirds-of-power-signed", signed >= vs.MinimumMaj23 && 3*signed > 2*vs.TotalPower)
 	sb := qc.SignBytes()
 	zzAssert("C02.payload-was-honestly-signed", bytes.Equal(sb, p0) || bytes.Equal(sb, p1))
+}
+
+// C02 (second gate): the 'last certificate' a block carries - the COMMIT certificate of the previous
+// block, which decides who is rewarded and who is slashed for non-signing - goes through the real
+// Controller.CheckAndSetLastCertificate (non-syncing) before the block is applied. An arbitrary
+// candidate header with an arbitrary attached certificate is accepted only if the certificate names
+// the block, results, height and proposer the node itself committed at the previous height, is for
+// this network and chain, and is signed by >= 2/3 of the committee in force at the certificate's own
+// root height, every signer honest-or-Byzantine having signed exactly that payload.
+
+//zz:stub (*github.com/canopy-network/canopy/fsm.StateMachine).LoadCertificateHashesOnly harness zzLoadCertHashes
+//zz:stub (*github.com/canopy-network/canopy/fsm.StateMachine).Store harness zzFSMStore
+
+var zzExpectedLast *lib.QuorumCertificate
+var zzIndexStore = &zzStore{}
+
+func zzLoadCertHashes(s *fsm.StateMachine, h uint64) (*lib.QuorumCertificate, lib.ErrorI) {
+	return zzExpectedLast, nil
+}
+func zzFSMStore(s *fsm.StateMachine) lib.RWStoreI { return zzIndexStore }
+
+//zz:harness mode=int unwind=60 maxpaths=60000 timebudget=1200
+//zz:reach C02.last.accepted C02.last.rejected
+func ZZ_C02_last_certificate_gate() {
+	n := zzParam("n", 3)
+	root := zzU64("root")
+	ps := make([]uint64, n)
+	var total uint64
+	for i := range ps {
+		ps[i] = zzN64("power")
+		zzAssume(ps[i] >= 1 && ps[i] < 1<<32)
+		total += ps[i]
+	}
+	vs := zzValSet(ps)
+	zzW = zzGateWorld{committees: map[uint64]lib.ValidatorSet{root: vs}}
+	expected := zzQC("expected", n)
+	expected.ProposerKey = zzBytes("expected.proposer", 2)
+	zzExpectedLast = expected
+	last := zzQC("last", n)
+	last.ProposerKey = zzBytes("last.proposer", 2)
+	last.Results = &lib.CertificateResult{RewardRecipients: &lib.RewardRecipients{PaymentPercents: []*lib.PaymentPercents{{Address: zzBytes("res.addr", 20), Percent: zzU64("res.pct"), ChainId: zzU64("res.chain")}}}}
+	candidate := &lib.BlockHeader{Height: zzU64("candidate.height"), LastQuorumCertificate: last}
+	zzAssume(candidate.Height > 1)
+	p0 := zzQC("p0", n)
+	p0.ProposerKey = zzBytes("p0.proposer", 2)
+	payload := p0.SignBytes()
+	zzTruth = zzTruthT{n: n, payloads: [][]byte{payload}, signed: [][]bool{make([]bool, n)}, byz: make([]bool, n)}
+	var byz uint64
+	for i := 0; i < n; i++ {
+		zzTruth.signed[0][i], zzTruth.byz[i] = zzBool("signed0"), zzBool("byz")
+		if zzTruth.byz[i] {
+			byz += ps[i]
+		}
+	}
+	zzAssume(3*byz < total)
+	c := &Controller{log: zzLogF{}, FSM: &fsm.StateMachine{}}
+	c.Config.ChainId, c.Config.NetworkID = zzU64("node.chain"), zzU64("node.net")
+	c.Consensus = &bft.BFT{Controller: c}
+	c.isSyncing = &atomic.Bool{}
+	err := c.CheckAndSetLastCertificate(candidate)
+	if err != nil {
+		zzReach("C02.last.rejected")
+		return
+	}
+	zzReach("C02.last.accepted")
+	zzAssert("C02.last.names-what-this-node-committed", bytes.Equal(last.BlockHash, expected.BlockHash) && bytes.Equal(last.ResultsHash, expected.ResultsHash) &&
+		last.Header.Height == expected.Header.Height && bytes.Equal(last.ProposerKey, expected.ProposerKey))
+	zzAssert("C02.last.network-and-chain", last.Header.NetworkId == c.Config.NetworkID && last.Header.ChainId == c.Config.ChainId)
+	zzAssert("C02.last.is-for-the-previous-height", last.Header.Height == candidate.Height-1)
+	zzAssert("C02.last.committee-of-own-root-height", len(zzW.askedRoots) == 1 && zzW.askedRoots[0] == last.Header.RootHeight)
+	var signed uint64
+	for i := 0; i < n; i++ {
+		if last.Signature.Bitmap[i/8]&(1<<(uint(i)&7)) != 0 {
+			signed += ps[i]
+		}
+	}
+	zzAssert("C02.last.two-thirds-of-power-signed", signed >= vs.MinimumMaj23 && 3*signed > 2*vs.TotalPower)
+	zzAssert("C02.last.payload-was-honestly-signed", bytes.Equal(last.SignBytes(), payload))
 }
